@@ -630,6 +630,7 @@ def _ex_bfs(item):
 def summarize(items, results, tier):
     keys = set()
     hist = set()
+    rule_inst = set()
     trans = 0
     bfs = None
     fam_orders = collections.defaultdict(set)
@@ -639,6 +640,8 @@ def summarize(items, results, tier):
         for nk in r.get("nkey") or []:
             if isinstance(nk, str) and nk.startswith("h:"):
                 hist.add(nk)
+            elif isinstance(nk, str) and nk[:2] in ("r:", "x:"):
+                rule_inst.add(nk)      # (rule object, instance) / ordered rule pair explored by the rules/cross/fusions phases
         trans += int((r.get("counts") or {}).get("events_executed", 0))
         if it.get("kind") == "bfs" and r.get("bfs"):
             bfs = r["bfs"]
@@ -654,7 +657,8 @@ def summarize(items, results, tier):
     pool = _PLAN.get("pool", {})
     gold = _PLAN.get("gold", {"events": {}})
     out = dict(
-        states=(len(keys) + len(hist)) or (_PLAN.get("plan_tree") or {}).get("states", 1),
+        states=(len(keys) + len(hist) + len(rule_inst)) or (_PLAN.get("plan_tree") or {}).get("states", 1),
+        rule_instances_and_pairs=len(rule_inst),
         transitions=trans or (_PLAN.get("plan_tree") or {}).get("transitions", 1),
         distinct_canonical_states=len(keys),
         distinct_histories=len(hist),
